@@ -11,6 +11,7 @@ import (
 	"path"
 	"sort"
 	"strings"
+	"syscall"
 	"time"
 
 	"github.com/hack-pad/hackpadfs"
@@ -207,6 +208,9 @@ func applyFS(fs hackpadfs.FS, op Op) (res Res) {
 		res.Err = hackpadfs.Chmod(fs, op.P, hackpadfs.FileMode(op.Perm))
 	case "chown":
 		res.Err = hackpadfs.Chown(fs, op.P, os.Getuid(), os.Getgid())
+	case "chownids":
+		// two different ids (the process's own ones leave nothing to see, and equal ones hide which is which)
+		res.Err = hackpadfs.Chown(fs, op.P, 1234, 5678)
 	case "chtimes":
 		t, at := time.Unix(op.Sec, 0), time.Unix(op.Sec, 0)
 		if op.Sec == 0 {
@@ -319,6 +323,8 @@ func ApplyOS(root string, op Op) (res Res) {
 		res.Err = os.Chmod(p, os.FileMode(op.Perm))
 	case "chown":
 		res.Err = os.Chown(p, os.Getuid(), os.Getgid())
+	case "chownids":
+		res.Err = os.Chown(p, 1234, 5678)
 	case "chtimes":
 		t, at := time.Unix(op.Sec, 0), time.Unix(op.Sec, 0)
 		if op.Sec == 0 {
@@ -376,6 +382,17 @@ type Node struct {
 	Size int64
 	Data string
 	Err  string // non-empty when the entry could not be examined
+	// Own is "uid:gid" when the entry's owner is known (FileInfo.Sys() is a *syscall.Stat_t) and is not this process
+	Own string
+}
+
+// own reports a foreign owner from a FileInfo's Sys().
+func own(sys interface{}) string {
+	st, ok := sys.(*syscall.Stat_t)
+	if !ok || st == nil || (int(st.Uid) == os.Getuid() && int(st.Gid) == os.Getgid()) {
+		return ""
+	}
+	return fmt.Sprintf("%d:%d", st.Uid, st.Gid)
 }
 
 // Snap is a whole-tree snapshot keyed by FS path ("." is the root).
@@ -404,7 +421,7 @@ func walkFS(fs hackpadfs.FS, name string, snap Snap, depth int) {
 		return
 	}
 	if fi.IsDir() {
-		n := Node{Kind: 'd', Perm: uint32(fi.Mode().Perm())}
+		n := Node{Kind: 'd', Perm: uint32(fi.Mode().Perm()), Own: own(fi.Sys())}
 		des, err := hackpadfs.ReadDir(fs, name)
 		if err != nil {
 			n.Err = "readdir: " + errClass(err)
@@ -423,7 +440,7 @@ func walkFS(fs hackpadfs.FS, name string, snap Snap, depth int) {
 		}
 		return
 	}
-	n := Node{Kind: 'f', Perm: uint32(fi.Mode().Perm()), Size: fi.Size()}
+	n := Node{Kind: 'f', Perm: uint32(fi.Mode().Perm()), Size: fi.Size(), Own: own(fi.Sys())}
 	if !fi.Mode().IsRegular() {
 		n.Kind = '?'
 	}
@@ -450,7 +467,7 @@ func walkOS(root, name string, snap Snap) {
 		return
 	}
 	if fi.IsDir() {
-		n := Node{Kind: 'd', Perm: uint32(fi.Mode().Perm())}
+		n := Node{Kind: 'd', Perm: uint32(fi.Mode().Perm()), Own: own(fi.Sys())}
 		des, err := os.ReadDir(p)
 		if err != nil {
 			n.Err = "readdir: " + errClass(err)
@@ -465,7 +482,7 @@ func walkOS(root, name string, snap Snap) {
 		}
 		return
 	}
-	n := Node{Kind: 'f', Perm: uint32(fi.Mode().Perm()), Size: fi.Size()}
+	n := Node{Kind: 'f', Perm: uint32(fi.Mode().Perm()), Size: fi.Size(), Own: own(fi.Sys())}
 	if !fi.Mode().IsRegular() {
 		n.Kind = '?'
 		snap[name] = n
